@@ -976,6 +976,87 @@ theorem step_blocked (cfg : Cfg) (a : Arr) (op : Op) (m : Mem) (hinv : a.Inv) :
   | removeAll | removeAllFree | reverse | sort | contains _ | containsValue _ | size | map | reduce _ =>
     simp [step, Out.blocked]
 
+/-- fullness: only `trim_capacity` can report `CC_ERR_ALLOC` on an array that is not exactly full -/
+theorem step_blocked_full (cfg : Cfg) (a : Arr) (op : Op) (m : Mem) (hinv : a.Inv) :
+    (a.step cfg op m).1.blocked = some .errAlloc → op ≠ .trimCapacity → a.size = a.capacity := by
+  have key : ∀ st : Stat, st ≠ .errAlloc → st ≠ .errMaxCapacity →
+      ∀ v l, (({ st := some st, val := v, log := l } : Out).blocked = some .errAlloc → False) ∧
+             (({ st := some st, val := v, log := l } : Out).blocked = some .errMaxCapacity → False) := by
+    intro st h1 h2 v l
+    simp [Out.blocked, h1, h2]
+  have none_key : ∀ v l, (({ st := none, val := v, log := l } : Out).blocked = some .errAlloc → False) ∧
+      (({ st := none, val := v, log := l } : Out).blocked = some .errMaxCapacity → False) := by
+    intro v l; simp [Out.blocked]
+  cases op with
+  | add x =>
+    simp only [step, blocked_mk]
+    rcases (add_spec a x m hinv).1 with ⟨ok, _⟩ | ⟨⟨hb, hf⟩, _⟩
+    · rw [ok]; simp
+    · rcases hb with ⟨e, _⟩ | ⟨e, _⟩ <;> rw [e] <;> simp [hf]
+  | addAt x i =>
+    simp only [step, blocked_mk]
+    rcases (addAt_spec a x i m hinv).1 with ⟨_, ⟨ok, _⟩ | ⟨⟨hb, hf⟩, _⟩⟩ | ⟨_, heq⟩
+    · rw [ok]; simp
+    · rcases hb with ⟨e, _⟩ | ⟨e, _⟩ <;> rw [e] <;> simp [hf]
+    · rw [heq]; simp
+  | trimCapacity => exact fun _ h => absurd rfl h
+  | replaceAt x i =>
+    obtain ⟨r1, _⟩ := replaceAt_spec a x i m hinv
+    have : (a.replaceAt x i m).1 ≠ .errAlloc ∧ (a.replaceAt x i m).1 ≠ .errMaxCapacity := by
+      rw [r1]; unfold Spec.Seq.replaceAt; split <;> simp
+    obtain ⟨k1, k2⟩ := key _ this.1 this.2 (a.replaceAt x i m).2.1 []
+    exact fun h _ => (k1 h).elim
+  | swapAt i j =>
+    obtain ⟨r1, _⟩ := swapAt_spec a i j m hinv
+    have : (a.swapAt i j m).1 ≠ .errAlloc ∧ (a.swapAt i j m).1 ≠ .errMaxCapacity := by
+      rw [r1]; unfold Spec.Seq.swapAt; split <;> simp
+    obtain ⟨k1, k2⟩ := key _ this.1 this.2 none []
+    exact fun h _ => (k1 h).elim
+  | remove x =>
+    obtain ⟨r1, _⟩ := remove_spec a x m hinv
+    have : (a.remove x m).1 ≠ .errAlloc ∧ (a.remove x m).1 ≠ .errMaxCapacity := by
+      rw [r1]; unfold Spec.Seq.remove; split <;> simp
+    obtain ⟨k1, k2⟩ := key _ this.1 this.2 (a.remove x m).2.1 []
+    exact fun h _ => (k1 h).elim
+  | removeAt i =>
+    obtain ⟨r1, _⟩ := removeAt_spec a i m hinv
+    have : (a.removeAt i m).1 ≠ .errAlloc ∧ (a.removeAt i m).1 ≠ .errMaxCapacity := by
+      rw [r1]; unfold Spec.Seq.removeAt; split <;> simp
+    obtain ⟨k1, k2⟩ := key _ this.1 this.2 (a.removeAt i m).2.1 []
+    exact fun h _ => (k1 h).elim
+  | removeLast =>
+    obtain ⟨r1, _⟩ := removeLast_spec a m hinv
+    have : (a.removeLast m).1 ≠ .errAlloc ∧ (a.removeLast m).1 ≠ .errMaxCapacity := by
+      rw [r1]; unfold Spec.Seq.removeLast; split <;> simp
+    obtain ⟨k1, k2⟩ := key _ this.1 this.2 (a.removeLast m).2.1 []
+    exact fun h _ => (k1 h).elim
+  | filterMut =>
+    obtain ⟨r1, _⟩ := filterMut_spec cfg.pred a m hinv
+    have : (a.filterMut cfg.pred m).1 ≠ .errAlloc ∧ (a.filterMut cfg.pred m).1 ≠ .errMaxCapacity := by
+      rw [r1]; unfold Spec.Seq.filterMut; split <;> simp
+    obtain ⟨k1, k2⟩ := key _ this.1 this.2 none (a.filterMut cfg.pred m).2.2.1
+    exact fun h _ => (k1 h).elim
+  | getAt i =>
+    obtain ⟨r1, _⟩ := getAt_spec a i m hinv
+    have : (a.getAt i m).1 ≠ .errAlloc ∧ (a.getAt i m).1 ≠ .errMaxCapacity := by
+      rw [r1]; unfold Spec.Seq.getAt; split <;> simp
+    obtain ⟨k1, k2⟩ := key _ this.1 this.2 (a.getAt i m).2.1 []
+    exact fun h _ => (k1 h).elim
+  | getLast =>
+    obtain ⟨r1, _⟩ := getLast_spec a m hinv
+    have : (a.getLast m).1 ≠ .errAlloc ∧ (a.getLast m).1 ≠ .errMaxCapacity := by
+      rw [r1]; unfold Spec.Seq.getLast; split <;> simp
+    obtain ⟨k1, k2⟩ := key _ this.1 this.2 (a.getLast m).2.1 []
+    exact fun h _ => (k1 h).elim
+  | indexOf x =>
+    obtain ⟨r1, _⟩ := indexOf_spec a x m hinv
+    have : (a.indexOf x m).1 ≠ .errAlloc ∧ (a.indexOf x m).1 ≠ .errMaxCapacity := by
+      rw [r1]; unfold Spec.Seq.indexOf; split <;> simp
+    obtain ⟨k1, k2⟩ := key _ this.1 this.2 (a.indexOf x m).2.1 []
+    exact fun h _ => (k1 h).elim
+  | removeAll | removeAllFree | reverse | sort | contains _ | containsValue _ | size | map | reduce _ =>
+    simp [step, Out.blocked]
+
 theorem expandCapacity_sched_nil (a : Arr) (m : Mem) (hs : m.sched = []) : (a.expandCapacity m).2.2.sched = [] := by
   by_cases hmax : a.AtLimit
   · rw [expandCapacity_max a m hmax]; exact hs
